@@ -11,6 +11,11 @@ OWNER_BY_INV = {
 }
 
 
+GOAL_CFGS = {   # group -> [(config of Goals_Client.tla, goals it must reach)]
+    "tight": [("GG_tight_lost.cfg", ["lostDropThenPush", "lagged"]),
+              ("GG_tight_misc.cfg", ["abandonThenAccept", "sendErrOnUnsub", "closeThenLeave", "duplicateSubId"])],
+}
+
 GROUP_OPS = {   # mirror of harness/src/client_scen.rs: group() - (h, kind, ids taken)
     "route": [("a", "call", 1), ("b", "call", 1), ("c", "call", 1), ("d", "sub", 2)],
     "stream": [("a", "sub", 2), ("b", "sub", 2), ("c", "call", 1)],
@@ -170,6 +175,33 @@ def run_client(pid, tier, rep, design_cfgs, asis, groups, nscen):
                                     "distinct": gen["distinct"], "wall_s": gen["wall_s"],
                                     "note": "simulation of Client.tla: %d environment scripts emitted and run against the real client" % len(sscs)})
         scs = scs + sscs
+        # ---- goal-directed scripts: TLC searches the bounded model breadth-first for named corners (Goals_Client.tla)
+        for gcfg, goals in GOAL_CFGS.get(g, []):
+            gres = vlib.tlc("Goals_Client", gcfg, workers=4, timeout=900, coverage=False, tag="goals-%s-%s" % (pid, gcfg))
+            seen_scripts, per_goal, chosen = set(), {}, []
+            for r in sorted(gres["replay"], key=lambda r: (r["goal"], len(r["script"]), json.dumps(r["script"], sort_keys=True))):
+                key = json.dumps(r["script"], sort_keys=True)
+                if key in seen_scripts or per_goal.get(r["goal"], 0) >= 6:
+                    continue
+                seen_scripts.add(key)
+                per_goal[r["goal"]] = per_goal.get(r["goal"], 0) + 1
+                chosen.append({"script": r["script"], "goal": r["goal"], "pace": 2})
+            missing = [x for x in goals if x not in per_goal]
+            if missing:
+                raise vlib.ToolError("vacuity: goals %s not reached in %s" % (missing, gcfg))
+            gpath = os.path.join(wd, "goal-scripts-%s.ndjson" % gcfg.replace(".cfg", ""))
+            with open(gpath, "w") as f:
+                for r in chosen:
+                    f.write(json.dumps(r) + "\n")
+            gt = os.path.join(wd, "trace-goals-%s.ndjson" % gcfg.replace(".cfg", ""))
+            vlib.vh(["record", "clientscript", g, gpath, gt], timeout=1800)
+            gscs = vlib.split_scenarios(gt)
+            if len(gscs) != len(chosen):
+                raise vlib.ToolError("goal-directed run of %s recorded %d scenarios for %d scripts" % (gcfg, len(gscs), len(chosen)))
+            nscripts += len(gscs)
+            rep.cov["tlc_runs"].append({"module": "Goals_Client", "cfg": gcfg, "generated": gres["generated"], "distinct": gres["distinct"],
+                                        "wall_s": gres["wall_s"], "note": "breadth-first search for the corners %s: %d scripts run against the real client" % (sorted(per_goal), len(gscs))})
+            scs = scs + gscs
         total += len(scs)
         ok, rejs, stats = vlib.validate_traces("MC_Trace_Client", "TC_%s.cfg" % g, scs, "%s-%s" % (pid, g))
         rep.cov["states"] += stats["distinct"]
